@@ -56,11 +56,11 @@ pub proof fn lemma_sorted_hi(j: int)
 // RFC 6330 4.3: KL(n) is the maximum K' value in Table 2 such that K' <= WS/(Al*(ceil(T/(Al*n)))).
 // is_kl states exactly that; kl_scan is a computable form; lemma_kl_scan proves they agree.
 pub open spec fn is_kl(q: int, k: int) -> bool {
-    &&& exists |i: int| 0 <= i < 477 && kp(i) == k && k <= q
-    &&& forall |i: int| 0 <= i < 477 && kp(i) <= q ==> kp(i) <= k
+    &&& exists |i: int| 0 <= i < 477 && #[trigger] kp(i) == k && k <= q
+    &&& forall |i: int| 0 <= i < 477 && #[trigger] kp(i) <= q ==> kp(i) <= k
 }
 pub open spec fn none_fits(q: int) -> bool {
-    forall |i: int| 0 <= i < 477 ==> kp(i) > q
+    forall |i: int| 0 <= i < 477 ==> #[trigger] kp(i) > q
 }
 pub open spec fn kl_scan(q: int, n: nat) -> int
     decreases n
@@ -72,9 +72,9 @@ pub open spec fn kl_of(q: int) -> int { kl_scan(q, 477) }
 pub proof fn lemma_kl_scan(q: int, n: nat)
     requires n <= 477,
     ensures
-        kl_scan(q, n) == 0 ==> forall |i: int| 0 <= i < n ==> kp(i) > q,
-        kl_scan(q, n) != 0 ==> (exists |i: int| 0 <= i < n && kp(i) == kl_scan(q, n) && kp(i) <= q)
-                               && (forall |i: int| 0 <= i < n && kp(i) <= q ==> kp(i) <= kl_scan(q, n)),
+        kl_scan(q, n) == 0 ==> forall |i: int| 0 <= i < n ==> #[trigger] kp(i) > q,
+        kl_scan(q, n) != 0 ==> (exists |i: int| 0 <= i < n && #[trigger] kp(i) == kl_scan(q, n) && kp(i) <= q)
+                               && (forall |i: int| 0 <= i < n && #[trigger] kp(i) <= q ==> kp(i) <= kl_scan(q, n)),
         0 <= kl_scan(q, n) <= 56403, kl_scan(q, n) != 0 ==> kl_scan(q, n) >= 10 && kl_scan(q, n) <= q,
     decreases n,
 {
@@ -82,12 +82,12 @@ pub proof fn lemma_kl_scan(q: int, n: nat)
     } else {
         lemma_sorted(0, n as int - 1);
         if kp(n as int - 1) <= q {
-            assert forall |i: int| 0 <= i < n && kp(i) <= q implies kp(i) <= kp(n as int - 1) by { lemma_sorted(i, n as int - 1); }
+            assert forall |i: int| 0 <= i < n && #[trigger] kp(i) <= q implies kp(i) <= kp(n as int - 1) by { lemma_sorted(i, n as int - 1); }
             assert(kp(n as int - 1) == kl_scan(q, n));
         } else {
             lemma_kl_scan(q, (n - 1) as nat);
             if kl_scan(q, n) != 0 {
-                let i0 = choose |i: int| 0 <= i < n - 1 && kp(i) == kl_scan(q, (n - 1) as nat) && kp(i) <= q;
+                let i0 = choose |i: int| 0 <= i < n - 1 && #[trigger] kp(i) == kl_scan(q, (n - 1) as nat) && kp(i) <= q;
                 assert(0 <= i0 < n && kp(i0) == kl_scan(q, n) && kp(i0) <= q);
             }
         }
@@ -103,7 +103,7 @@ pub proof fn lemma_kl_of(q: int)
     lemma_kl_scan(q, 477);
     lemma_table_sorted_all();
     if q >= 10 { assert(kp(0) <= q); }
-    if q < 10 { assert forall |i: int| 0 <= i < 477 implies kp(i) > q by { lemma_sorted_lo(i); } }
+    if q < 10 { assert forall |i: int| 0 <= i < 477 implies #[trigger] kp(i) > q by { lemma_sorted_lo(i); } }
 }
 pub proof fn lemma_kl_mono(q1: int, q2: int)
     requires q1 <= q2,
@@ -111,7 +111,7 @@ pub proof fn lemma_kl_mono(q1: int, q2: int)
 {
     lemma_kl_of(q1); lemma_kl_of(q2);
     if kl_of(q1) != 0 {
-        let i = choose |i: int| 0 <= i < 477 && kp(i) == kl_of(q1) && kl_of(q1) <= q1;
+        let i = choose |i: int| 0 <= i < 477 && #[trigger] kp(i) == kl_of(q1) && kl_of(q1) <= q1;
         assert(kp(i) <= q2);
     }
 }
@@ -135,6 +135,91 @@ pub open spec fn params_exist(f: int, p: int, ws: int) -> bool {
     &&& kln(ws, p, nmax_of(p)) >= 10              // KL(N_max) is defined
     &&& z_of(f, p, ws) <= 255
 }
+
+pub proof fn lemma_t_of(p: int)
+    requires 1 <= p <= 65535,
+    ensures 1 <= t_of(p) <= p, t_of(p) % al_of(p) == 0, nmax_of(p) >= 1, nmax_of(p) <= 65535,
+        p >= 64 ==> t_of(p) >= 64,
+{
+    if p >= 64 {
+        lemma_fundamental_div_mod(p, 8);
+        assert(t_of(p) == 8 * (p / 8));
+        assert(p / 8 >= 8) by { lemma_div_is_ordered(64, p, 8); }
+        lemma_mod_multiples_basic(p / 8, 8);
+        assert((8 * (p / 8)) % 8 == 0) by { lemma_mul_is_commutative(8, p / 8); }
+        assert(t_of(p) / 64 >= 1) by { lemma_div_is_ordered(64, t_of(p), 64); }
+        assert(t_of(p) / 64 <= t_of(p)) by { lemma_div_is_ordered_by_denominator(t_of(p), 1, 64); lemma_div_basics(t_of(p)); }
+        assert(ss_of(p) * al_of(p) == 64);
+    } else {
+        lemma_div_basics(p);
+        assert(p % 1 == 0) by { lemma_fundamental_div_mod(p, 1); lemma_mod_bound(p, 1); }
+        assert(ss_of(p) * al_of(p) == 1);
+        assert(t_of(p) == p);
+    }
+}
+pub proof fn lemma_budget_x(p: int, n: int)
+    requires 1 <= p <= 65535, 1 <= n <= nmax_of(p),
+    ensures 1 <= al_of(p) * n <= 8 * 65535, 1 <= ceil_div(t_of(p), al_of(p) * n) <= 65535,
+        1 <= al_of(p) * ceil_div(t_of(p), al_of(p) * n) <= 8 * 65535,
+{
+    lemma_t_of(p);
+    let d = al_of(p) * n;
+    assert(1 <= d <= 8 * 65535) by (nonlinear_arith) requires d == al_of(p) * n, 1 <= al_of(p) <= 8, 1 <= n <= 65535;
+    lemma_ceil_div_exact(t_of(p), d);
+    let x = ceil_div(t_of(p), d);
+    assert(x >= 1) by (nonlinear_arith) requires x * d >= t_of(p), t_of(p) >= 1, d >= 1, x >= 0;
+    lemma_ceil_div_le(t_of(p), d, t_of(p));
+    assert(t_of(p) <= d * t_of(p)) by (nonlinear_arith) requires d >= 1, t_of(p) >= 0;
+    assert(1 <= al_of(p) * x <= 8 * 65535) by (nonlinear_arith) requires 1 <= al_of(p) <= 8, 1 <= x <= 65535;
+}
+// consequences of "a valid configuration exists"
+pub proof fn lemma_params(f: int, p: int, ws: int)
+    requires params_exist(f, p, ws),
+    ensures
+        1 <= kt_of(f, p) <= 255 * 56403,
+        10 <= kln(ws, p, nmax_of(p)) <= 56403,
+        1 <= z_of(f, p, ws) <= 255,
+        n_ok(f, p, ws, nmax_of(p)),                       // N_max always qualifies, so the search for N succeeds
+        ceil_div(kt_of(f, p), z_of(f, p, ws)) <= 56403,
+        ceil_div(kt_of(f, p), z_of(f, p, ws)) >= 1,
+{
+    lemma_t_of(p);
+    let t = t_of(p); let kt = kt_of(f, p); let kl = kln(ws, p, nmax_of(p)); let z = z_of(f, p, ws);
+    lemma_kl_of(budget(ws, p, nmax_of(p)));
+    lemma_ceil_div_exact(f, t);
+    assert(kt >= 1) by (nonlinear_arith) requires kt * t >= f, f >= 1, t >= 1, kt >= 0;
+    lemma_ceil_div_exact(kt, kl);
+    assert(z >= 1) by (nonlinear_arith) requires z * kl >= kt, kt >= 1, kl >= 1, z >= 0;
+    assert(kt <= z * kl);
+    assert(z * kl <= 255 * 56403) by (nonlinear_arith) requires 1 <= z <= 255, 1 <= kl <= 56403;
+    assert(z * kl == kl * z) by (nonlinear_arith);
+    lemma_ceil_div_le(kt, z, kl);
+    lemma_ceil_div_exact(kt, z);
+    let kz = ceil_div(kt, z);
+    assert(kz >= 1) by (nonlinear_arith) requires kz * z >= kt, kt >= 1, z >= 1, kz >= 0;
+}
+// "A larger memory budget never yields more source blocks"
+pub proof fn lemma_ceil_div_antimono(a: int, b1: int, b2: int)
+    requires a >= 0, 1 <= b1 <= b2,
+    ensures ceil_div(a, b2) <= ceil_div(a, b1),
+{
+    lemma_ceil_div_exact(a, b1);
+    let k = ceil_div(a, b1);
+    assert(a <= b2 * k) by (nonlinear_arith) requires k * b1 >= a, b1 <= b2, k >= 0;
+    lemma_ceil_div_le(a, b2, k);
+}
+pub proof fn lemma_budget_monotone(f: int, p: int, ws1: int, ws2: int)
+    requires params_exist(f, p, ws1), 0 <= ws1 <= ws2,
+    ensures kln(ws1, p, nmax_of(p)) <= kln(ws2, p, nmax_of(p)), z_of(f, p, ws2) <= z_of(f, p, ws1),
+{
+    lemma_t_of(p);
+    lemma_params(f, p, ws1);
+    lemma_budget_x(p, nmax_of(p));
+    let d = al_of(p) * ceil_div(t_of(p), al_of(p) * nmax_of(p));
+    lemma_div_is_ordered(ws1, ws2, d);
+    lemma_kl_mono(budget(ws1, p, nmax_of(p)), budget(ws2, p, nmax_of(p)));
+    lemma_ceil_div_antimono(kt_of(f, p), kln(ws1, p, nmax_of(p)), kln(ws2, p, nmax_of(p)));
+}
 } // verus!
 '''
 
@@ -154,9 +239,49 @@ def build():
     v_oti.int_div_ceil(u)
     u.struct('src/base.rs', 'ObjectTransmissionInformation')
     u.raw('impl ObjectTransmissionInformation {')
+    F, P, WS = 'transfer_length as int', 'max_packet_size as int', 'decoder_memory_requirement as int'
+    ctx = ('alignment as int == al_of(%s), sub_symbol_size as int == ss_of(%s), symbol_size as int == t_of(%s), symbol_size >= 1,'
+           ' params_exist(%s, %s, %s), n_max as int == nmax_of(%s), n_max >= 1, n_max <= 65535,' % (P, P, P, F, P, WS, P))
     u.fn('src/base.rs', 'generate_encoding_parameters', impl='impl ObjectTransmissionInformation', ret='r',
-         rules=['D3_tuple'],
-         requires=[], ensures=[])
+         rules=['D3_tuple', 'D6', 'A1'],
+         requires=['params_exist(%s, %s, %s)' % (F, P, WS)],
+         ensures=[
+             'r.transfer_length == transfer_length',
+             'r.symbol_alignment as int == al_of(%s)' % P,
+             'r.symbol_size as int == t_of(%s)' % P,
+             'r.num_source_blocks as int == z_of(%s, %s, %s)' % (F, P, WS),
+             'n_ok(%s, %s, %s, r.num_sub_blocks as int)' % (F, P, WS),
+             'forall |m: int| 1 <= m < r.num_sub_blocks as int ==> !n_ok(%s, %s, %s, m)' % (F, P, WS),
+             '(r.symbol_size as int) % (r.symbol_alignment as int) == 0 && r.symbol_size >= 1 && r.num_source_blocks >= 1',
+             'ceil_div(ceil_div(r.transfer_length as int, r.symbol_size as int), r.num_source_blocks as int) <= 56403',
+         ],
+         subst=[
+             ('let kl = |n: u32| -> u32 {',
+              'let kl = |n: u32| -> (kr: u32)\n requires 1 <= n <= n_max,\n ensures kr as int == kln(%s, %s, n as int),\n {' % (WS, P),
+              'closure-contract'),
+         ],
+         inserts=[
+             ('let symbol_size = max_packet_size', 'before', 'proof { lemma_t_of(%s); assert(alignment as int == al_of(%s) && sub_symbol_size as int == ss_of(%s)); }' % (P, P, P)),
+             ('let n_max = symbol_size as u32', 'before',
+              'proof { if max_packet_size >= 64 { assert(sub_symbol_size == 8 && alignment == 8); assert(sub_symbol_size * alignment == 64) by (nonlinear_arith) requires sub_symbol_size == 8, alignment == 8; }'
+              ' else { assert(sub_symbol_size == 1 && alignment == 1); assert(sub_symbol_size * alignment == 1) by (nonlinear_arith) requires sub_symbol_size == 1, alignment == 1; } }'),
+             ('let kt = int_div_ceil', 'before', 'proof { lemma_params(%s, %s, %s); }' % (F, P, WS)),
+             ('let x = int_div_ceil', 'before', 'proof { lemma_budget_x(%s, n as int); }' % P),
+             ('let num_source_blocks = int_div_ceil', 'before', 'proof { lemma_params(%s, %s, %s); }' % (F, P, WS)),
+             ('let mut n = 1;', 'before',
+              'proof { lemma_params(%s, %s, %s); assert(num_source_blocks as int == z_of(%s, %s, %s)); }' % (F, P, WS, F, P, WS)),
+         ],
+         loops={
+             0: {'spec': 'invariant verif_k <= 477, kl_scan(budget(%s, %s, n as int), 477) == kl_scan(budget(%s, %s, n as int), verif_k as nat), 1 <= n <= n_max, %s\n decreases verif_k,' % (WS, P, WS, P, ctx)},
+             1: {'spec': ('invariant_except_break 1 <= i <= n_max + 1, (i == 1 ==> n == 1), (i > 1 ==> n == i - 1),\n'
+                          ' invariant forall |k: u32| 1 <= k <= n_max ==> #[trigger] kl.requires((k,)),'
+                          ' forall |k: u32, kr: u32| kl.ensures((k,), kr) ==> kr as int == kln(%s, %s, k as int),'
+                          ' kt as int == kt_of(%s, %s), num_source_blocks as int == z_of(%s, %s, %s), 1 <= num_source_blocks <= 255, %s'
+                          ' forall |m: int| 1 <= m < i as int ==> !n_ok(%s, %s, %s, m), n_ok(%s, %s, %s, n_max as int),\n'
+                          ' ensures 1 <= n <= n_max, n_ok(%s, %s, %s, n as int), forall |m: int| 1 <= m < n as int ==> !n_ok(%s, %s, %s, m),\n'
+                          ' decreases n_max + 1 - i,') % (WS, P, F, P, F, P, WS, ctx, F, P, WS, F, P, WS, F, P, WS, F, P, WS),
+                 'body_top': 'proof { lemma_params(%s, %s, %s); }' % (F, P, WS)},
+         })
     u.raw('}')
     u.raw('} // verus!')
     return u
